@@ -501,7 +501,11 @@ impl ItemizedBlock {
         }
         // A line made of block quote markers only has no space after the last `>`, so it can be
         // shorter than the markers' canonical form "> > ".
-        let content_start = std::cmp::min(indent, line.len());
+        // `indent` counts characters (the white space before the marker may be multi-byte).
+        let content_start = line
+            .char_indices()
+            .nth(indent)
+            .map_or(line.len(), |(i, _)| i);
         Some(ItemizedBlock {
             lines: vec![line[content_start..].to_string()],
             indent,
